@@ -94,7 +94,16 @@ func C03(r *explore.Run) {
 	r.Rule = "S1 byte strings and S2 lexeme sequences through Lexer.NextToken (to EOF) and SplitRawStatements and through all nine Parse* functions (S1 at reduced length); S3 token strings (with lexically malformed tokens at every position) through all nine Parse* functions; " +
 		"oracle: returns (watchdog), no panic, error types as documented, non-nil node; non-trivial = input for which at least one entry point reports an error; distinct by (entry point, outcome class, tree shape)"
 	r.Assume = []string{"a case that does not return within 20 s (inputs are <=60 bytes) is reported as non-termination"}
-	hang := explore.Options{HangSig: "C03/non-termination"}
+	hang := explore.Options{HangSig: "C03/non-termination", HangRecheck: func(in string) {
+		// the input may carry an "Entry: " prefix from the edit spaces
+		if i := strings.Index(in, ": "); i > 0 && strings.HasPrefix(in, "Parse") {
+			in = in[i+2:]
+		}
+		checkLexTotal(in)
+		for i := range Entries {
+			Entries[i].Call(in)
+		}
+	}}
 	explore.HangHook = func(sig, input, why string) {
 		r.AddViolation(sig, input, why)
 		r.Finish()
